@@ -224,7 +224,7 @@ impl Prop for C11 {
     }
     fn gen(seed: u64, idx: u64, tier: Tier) -> CutCase {
         let mut r = Rng::new(seed);
-        let class = if idx < 10 { idx } else { 3 + r.below(7) };
+        let class = if idx < 11 { idx } else { 3 + r.below(8) };
         let spec = match class {
             0 => SeedSpec::Canned("minimal.mp4".into()),
             1 => SeedSpec::CannedFrag,
@@ -234,6 +234,7 @@ impl Prop for C11 {
             6 => SeedSpec::MuxShuffled { seed: r.below(1 << 20) },
             7 => SeedSpec::Meta { seed: r.below(1 << 20) },
             8 => SeedSpec::Frag { seed: r.below(1 << 20) },
+            10 => SeedSpec::Hybrid { seed: r.below(1 << 20) },
             _ => {
                 if (tier == Tier::Thorough && r.chance(1, 40)) || idx == 9 {
                     SeedSpec::Canned("big_buck_bunny_metadata.m4v".into())
@@ -385,7 +386,7 @@ impl Prop for C11 {
         false
     }
     fn mandatory_probes(_t: Tier) -> Vec<&'static str> {
-        vec!["probe.some_cut_opened", "image.canned_frag", "image.mux_reloc", "image.frag", "image.meta"]
+        vec!["probe.some_cut_opened", "image.canned_frag", "image.mux_reloc", "image.frag", "image.meta", "image.hybrid"]
     }
 }
 
